@@ -1,6 +1,7 @@
 /* C17: several encoder / decoder instances in one process, each in its own thread, started with staggered delays.
  * usage: multi_inst <spec> [<spec> ...]     spec = E:<w>x<h>:<bits>:<preset>:<lp>:<cpuhex>:<grain>:<content>:<n>:<delay_ms>  or  D:<streamfile>:<threads>:<delay_ms>
  * prints one line per instance: "I <index> <ok|fail> packets=<n> pk=<hash> rec=<hash> pics=<n> dec=<hash>" */
+#include "../no_rt.h"   /* ordinary threads instead of SCHED_FIFO/99 (see the header) */
 #include <stdio.h>
 #include <stdlib.h>
 #include <string.h>
